@@ -521,6 +521,8 @@ func TestFixedHostile(t *testing.T) {
 		"cast(message, \"int\")\ncast(message, \"bool\")\ncast(message, \"float\")\nuppercase(message)", "set_tag(message)\nset_tag(message, \"x\")\nadd_key(message, 1.5)\ntrim(message)",
 		"strfmt(a, \"%d %s %v %[9]d %!\", 1.5, nil, [1])", "default_time(f1, \"+8\")\ndefault_time(message)", "datetime(f1, \"ms\", \"RFC3339\")\ndatetime(message, \"s\", \"ANSIC\")",
 		"grok(_, \"%{INT:f1:int} %{WORD:t1}\")\ngrok(f1, \"%{NUMBER:message:float}\", false)", "xml(message, \"//b/@id\", a.b)\nxml(f1, \"(\", x)", "a = -true\nb = +false\nadd_key(a)\nadd_key(b)",
+		"if len() {\n}", "if true {\n} elif load_json() {\n}", "if trim() { }", "if false { } elif len(load_json()) > 0 { }\nx = 1", "for ; len(); { }", "for x in trim() { }",
+		"datetime(f1, \"S\", \"RFC3339\")", "datetime(f1, \"MS\", \"ANSIC\")", "datetime(message, \"Ms\", \"RFC3339\")\ndatetime(a, \"mS\", \"RFC822\")", "datetime(f1, \"\", \"\")",
 		"a = 1\na += \"s\"", "a = nil\na -= 1", "u %= 0 - 0", "l = [0]\nl[0] /= l[0]", "set_measurement(message, true)\nset_measurement(a.b, true)\nset_measurement(1 + 1)",
 	}
 	points := []map[string]any{{}, {"message": "str", "a": int64(5), "f1": 2.5}, {"message": "hello 42", "f1": int64(1600000000)}, {"message": int64(5), "f1": "2021-05-27 06:54:14.760 UTC", "a": nil}, {"message": "\xff<a><b id=\"1\"/></a>", "k1": 1.5}}
